@@ -4,6 +4,7 @@
 package repl
 
 import (
+	"sync"
 	"bytes"
 	"context"
 	"encoding/binary"
@@ -171,7 +172,7 @@ type cluster struct {
 	sim      *simrt.Sim
 	nodes    map[int]*node
 	live     map[int]bool
-	watchers map[int][]func(models.NodeStateType)
+	sm       *stateMgr // the state manager of the leader's current incarnation
 	faultPM  int
 	noFaults bool
 	streams  int
@@ -222,14 +223,42 @@ func (q *faultyQueue) Put(b []byte) error {
 	return q.Queue.Put(b)
 }
 
-// state manager stub
+// state manager stub. Like lindb's storage state manager it keeps its own view of the live nodes, changes it only
+// when it processes a discovery event, and processes an event - calling the watchers - under its write lock while
+// GetLiveNode takes the read lock (a watcher that blocks therefore blocks every reader).
 type stateMgr struct {
 	storage.StateManager // unused methods stay nil: a call would panic loudly
 	cl                   *cluster
+	mu                   sync.RWMutex
+	live                 map[int]bool
+	watchers             map[int][]func(models.NodeStateType)
+	events               []func()
+}
+
+func newStateMgr(cl *cluster) *stateMgr {
+	sm := &stateMgr{cl: cl, live: map[int]bool{}, watchers: map[int][]func(models.NodeStateType){}}
+	for id, v := range cl.live {
+		sm.live[id] = v
+	}
+	return sm
+}
+
+// run is the event loop of the manager (a task of the node's incarnation).
+func (s *stateMgr) run() {
+	for {
+		s.cl.sim.Await(func() bool { return len(s.events) > 0 })
+		ev := s.events[0]
+		s.events = s.events[1:]
+		simrt.Lock(&s.mu)
+		ev()
+		simrt.Unlock(&s.mu)
+	}
 }
 
 func (s *stateMgr) GetLiveNode(id models.NodeID) (models.StatefulNode, bool) {
-	if s.cl.live[int(id)] {
+	simrt.RLock(&s.mu)
+	defer simrt.RUnlock(&s.mu)
+	if s.live[int(id)] {
 		n := models.StatefulNode{ID: id}
 		n.HostIP = fmt.Sprintf("10.0.0.%d", id)
 		n.GRPCPort = 2891
@@ -238,7 +267,9 @@ func (s *stateMgr) GetLiveNode(id models.NodeID) (models.StatefulNode, bool) {
 	return models.StatefulNode{}, false
 }
 func (s *stateMgr) WatchNodeStateChangeEvent(id models.NodeID, fn func(models.NodeStateType)) {
-	s.cl.watchers[int(id)] = append(s.cl.watchers[int(id)], fn)
+	simrt.Lock(&s.mu)
+	defer simrt.Unlock(&s.mu)
+	s.watchers[int(id)] = append(s.watchers[int(id)], fn)
 }
 func (s *stateMgr) GetLiveNodes() []models.StatefulNode            { return nil }
 func (s *stateMgr) GetShardAssignments() []*models.ShardAssignment { return nil }
@@ -459,9 +490,11 @@ func (cl *cluster) startNode(id int) error {
 	}
 	n.inc = cl.sim.NewIncarnation()
 	n.alive = true
+	sm := newStateMgr(cl)
 	if id == leaderID {
-		// the watchers belong to the replicators of the previous leader incarnation
-		cl.watchers = map[int][]func(models.NodeStateType){}
+		// (the watchers of the previous incarnation's replicators died with its state manager)
+		cl.sm = sm
+		cl.sim.SpawnIn(n.inc, "statemgr", sm.run)
 	}
 	ctx, cancel := context.WithCancel(context.Background())
 	n.cancel = cancel
@@ -471,7 +504,7 @@ func (cl *cluster) startNode(id int) error {
 	cl.sim.SpawnIn(inc, fmt.Sprintf("boot%d", id), func() {
 		eng := &stubEngine{shard: &stubShard{db: &stubDB{}, fam: &stubFamily{}}}
 		cfg := config.WAL{Dir: filepath.Join(n.dir, "wal"), PageSize: ltoml.Size(512), RemoveTaskInterval: ltoml.Duration(time.Hour)}
-		n.walMgr = replica.NewWriteAheadLogManager(ctx, cfg, models.NodeID(id), eng, &cliFct{cl: cl}, &stateMgr{cl: cl})
+		n.walMgr = replica.NewWriteAheadLogManager(ctx, cfg, models.NodeID(id), eng, &cliFct{cl: cl}, sm)
 		n.handler = storagerpc.NewReplicaHandler(n.walMgr)
 		if err := n.walMgr.Recovery(); err != nil {
 			startErr = err
@@ -519,10 +552,27 @@ func (cl *cluster) stopNode(id int, clean bool) {
 	n.part = nil
 }
 
-func (cl *cluster) notify(id int, st models.NodeStateType) {
-	for _, fn := range cl.watchers[id] {
-		fn(st)
+// setLive changes the truth and hands the discovery event to the leader's state manager, which processes it in its
+// own task: node map and watchers under the manager's lock, as lindb's storage state manager does.
+func (cl *cluster) setLive(id int, live bool) {
+	cl.live[id] = live
+	sm := cl.sm
+	if sm == nil {
+		return
 	}
+	sm.events = append(sm.events, func() {
+		sm.live[id] = live
+		if live {
+			for _, fn := range sm.watchers[id] {
+				fn(models.NodeOnline)
+			}
+		}
+	})
+}
+
+// notify delivers a node-online event (again).
+func (cl *cluster) notify(id int, st models.NodeStateType) {
+	cl.setLive(id, true)
 }
 
 // ---- observation ---------------------------------------------------------------------
@@ -618,7 +668,7 @@ func (cl *cluster) check(when string) {
 
 func (H) Run(c *core.RunCtx) {
 	sim := c.Sim
-	cl := &cluster{c: c, sim: sim, nodes: map[int]*node{}, live: map[int]bool{leaderID: true, followerID: true}, watchers: map[int][]func(models.NodeStateType){},
+	cl := &cluster{c: c, sim: sim, nodes: map[int]*node{}, live: map[int]bool{leaderID: true, followerID: true},
 		appendedBy: map[int64]int{}, faultPM: c.Plan.C("fault_pm", 0), written: map[int64][]byte{}, lostFrom: 1 << 60, prevAck: -1, streamTasks: map[int]bool{}, putStarted: map[int64]bool{}}
 	{
 		hot := float64(c.Plan.C("hot_pm", 0)) / 1000
@@ -741,20 +791,21 @@ func (H) Run(c *core.RunCtx) {
 			}
 		case "offline":
 			sim.Fault("follower-offline")
-			cl.live[followerID] = false
+			cl.setLive(followerID, false)
 			simrt.Sleep(time.Duration(op.A) * time.Millisecond)
-			cl.live[followerID] = true
 			sim.Fault("follower-online")
-			cl.notify(followerID, models.NodeOnline)
+			cl.setLive(followerID, true)
 		case "flap":
 			sim.Fault("follower-flap")
 			cl.flapping = true
-			cl.live[followerID] = false
+			cl.setLive(followerID, false)
 			for i := int64(0); i < op.A; i++ {
 				sim.YieldNow()
 			}
-			cl.live[followerID] = true
-			cl.notify(followerID, models.NodeOnline)
+			cl.setLive(followerID, true)
+			for i := int64(0); i < 3; i++ {
+				sim.YieldNow() // the manager processes the two events while every task may still lose the processor anywhere
+			}
 			cl.flapping = false
 		case "online_dup":
 			sim.Fault("duplicate-online-notification")
@@ -823,7 +874,7 @@ func (H) Run(c *core.RunCtx) {
 	}
 	// bounded liveness: faults stop, follower online -> the follower catches up without operator action
 	cl.noFaults = true
-	cl.live[followerID] = true
+	cl.setLive(followerID, true)
 	if !cl.nodes[followerID].alive {
 		_ = cl.startNode(followerID)
 	}
